@@ -32,6 +32,58 @@ def synth(rng):
     return {"synthetic": True, "K": K, "labels": labels, "ll": [str(x) for x in ll]}
 
 
+def oscillation_section(ctx):
+    import random as pyrandom
+    from fast_ticc import cluster_label_assignment as cla, likelihood as lk
+    T, N, W, K, beta = 90, 2, 2, 3, 5.0
+    npts = T - W + 1
+    for rep in range(6 if ctx.quick() else 60):
+        r = pyrandom.Random(ctx.rng.randrange(2 ** 31))
+        data = tu.make_series(r, T, N, regimes=3, seg=(10, 25))
+        # two labellings with every cluster well populated (no repopulation interferes), differing in a few windows
+        cuts = sorted(r.sample(range(12, npts - 12), 2))
+        if cuts[1] - cuts[0] < 12:
+            continue
+        A = [0 if i < cuts[0] else (1 if i < cuts[1] else 2) for i in range(npts)]
+        sh = [r.choice([-4, -3, 3, 4]), r.choice([-4, -2, 2, 4])]
+        B = [0 if i < cuts[0] + sh[0] else (1 if i < cuts[1] + sh[1] else 2) for i in range(npts)]
+        style = ["ABAB", "ABAB", "ABB", "AAB"][rep % 4]
+        limit = r.choice([3, 4, 5, 6, 7])
+        counter = {"j": 0}
+
+        def scripted(model, test_data, _A=A, _B=B, _style=style, _c=counter):
+            ll = lk.all_points_all_clusters_log_likelihood(model, test_data)
+            j = _c["j"]
+            _c["j"] = j + 1
+            if _style == "ABAB":
+                labels = _A if j % 2 == 0 else _B
+            elif _style == "ABB":
+                labels = _A if j == 0 else _B
+            else:
+                labels = _A if j < 2 else _B
+            cost = -float(sum(ll[i, l] for i, l in enumerate(labels))) + beta * sum(1 for a, b in zip(labels, labels[1:]) if a != b)
+            new_model = model.shallow_copy()
+            new_model.clusters = [c.deep_copy() for c in new_model.clusters]
+            new_model.point_labels = list(labels)
+            new_model.label_assignment_cost = cost
+            return new_model
+        tu.seed_all(r.randrange(2 ** 31))
+        cfg = {"oscillation": style, "limit": limit, "cuts": cuts, "shift": sh, "T": T}
+        try:
+            with tu.patched(cla, "predict_cluster_labels", scripted), tu.quiet():
+                res = tu.run_single(data, window_size=W, num_clusters=K, label_switching_cost=beta,
+                                    min_cluster_size=2, iteration_limit=limit)
+        except Exception as e:           # a scripted history the loop rejects is outside this scenario
+            ctx.count("oscillation_raised:" + type(e).__name__)
+            continue
+        ctx.count("oscillation:" + style)
+        for (site, msg, extra) in oracles.result_consistency(res, K, beta, False, check_cost=True):
+            sig = {"site": site}
+            sig.update(extra)
+            ctx.violation("impl-violation", f"scripted label history {style} (limit {limit}): " + msg, cfg, sig)
+        ctx.case(("oscillation", rep, style, limit), nontrivial=True)
+
+
 def run(ctx):
     common.setup_repo_import()
     from fast_ticc import main_loop, likelihood
@@ -182,6 +234,14 @@ def run(ctx):
         if not ok:
             ctx.violation("correspondence-break", "assemble (model aggregates) vs result fields", cfg)
     ctx.extra["runs_completed"] = completed
+
+    # ---------------- (b2) scripted label histories with CONSISTENT accounting, through the real loop: the relabel phase
+    # returns a labelling from a script (alternating A, B, A, …; or A, B, B) together with the cost that labelling really
+    # has under the model it was given (minus its log-likelihood plus the switching cost), built exactly the way the
+    # real phase builds its output.  Whatever round the run decides to return, the result's cost must be minus its
+    # overall log-likelihood plus the switching cost of ITS labels: both come from one (labels, means, MRFs) state.
+    if ctx.replay is None:
+        oscillation_section(ctx)
 
     # ---------------- (c) whole-result replay: the complete result of a traced real run must be Final.report of the
     # composed Lean model run on the same data, initial labelling, random draws and ADMM outputs
